@@ -120,8 +120,21 @@ func TestC02Builds(t *testing.T) {
 				blk := rawBlock{Ts: day0 + int64(slot)*300,
 					Traffic:  gpfile.TrafficMetadata{NumV4Entries: uint64(b + 1), NumV6Entries: uint64(s), NumDrops: uint64(slot)},
 					Counters: types.Counters{BytesRcvd: uint64(1000 + slot), BytesSent: 7, PacketsRcvd: uint64(slot), PacketsSent: 1}}
+				// rarely one column of a block is huge (above 1 MiB: busy links produce such columns, and window /
+				// buffer limits of the compression libraries live there)
+				hugeCol := -1
+				if rapid.IntRange(0, 11).Draw(t, fmt.Sprintf("s%d.b%d.huge?", s, b)) == 0 {
+					hugeCol = rapid.IntRange(0, int(types.ColIdxCount)-1).Draw(t, fmt.Sprintf("s%d.b%d.hugecol", s, b))
+				}
 				for c := 0; c < int(types.ColIdxCount); c++ {
-					p := gen.DrawPayload(t, fmt.Sprintf("s%d.b%d.c%d", s, b, c), 40000)
+					var p gen.Payload
+					if c == hugeCol {
+						n := rapid.SampledFrom([]int{1 << 20, 1<<20 + 8, 1<<20 + 70000, 3 << 19, 3 << 20}).Draw(t, fmt.Sprintf("s%d.b%d.hugelen", s, b))
+						p = gen.DrawPayloadN(t, fmt.Sprintf("s%d.b%d.c%d", s, b, c), n, ">1MiB")
+						evid.Class("huge-column")
+					} else {
+						p = gen.DrawPayload(t, fmt.Sprintf("s%d.b%d.c%d", s, b, c), 40000)
+					}
 					blk.Cols = append(blk.Cols, p.Data)
 					if len(p.Data) > 8192 && sess.Encoder != "null" {
 						big = true
